@@ -9,6 +9,14 @@ CHECKS = {
    text="Bounded symbolic model checking of the real decodeTimeout (with strconv.ParseInt interpreted from source): every grpc-timeout string of length 0..10 with all bytes symbolic is compared with a reference (1-8 digits x unit, clamp of overflowing hours, rejection of every malformed shape). Exhaustive within the bound because lengths are enumerated and bytes are solver variables.",
    note="Trusted: go/ssa as source semantics, the engine's instruction semantics (validated per run by native replay of witnesses), z3. Not covered (N/A part of the property): client cancellation / disconnect reaching a blocked handler - needs goroutines and the HTTP/2 server, which the executor does not model. Sign-prefixed values are unspecified.",
    design="§4 C15"),
+ "C17": dict(
+   text="Bounded symbolic model checking of the real CodecProto / CodecJSON / codecHTTPBody ReadNext+WriteNext: round trips of k symbolic messages through every read partition, EOF placement, carry-over and buffer capacity (the read schedule is a nondeterministic io.Reader), plus ReadNext on arbitrary symbolic wire bytes (all 1..10-byte varint prefixes, all uint64 sizes, arbitrary brace/quote/escape bytes) against reference decoders written from the wire specs.",
+   note="Trusted: go/ssa semantics, engine semantics (witness replay per run), z3, the vfFragReader model of the io.Reader contract, runtime.growslice capacity model. Outside: limit <= 0, zero-byte non-error reads, payloads longer than the bound (long multi-byte prefixed messages only through the arbitrary-wire harness).",
+   design="§4 C17"),
+ "C05": dict(
+   text="Bounded symbolic model checking of the status kernels: HTTPStatusCode / WSStatusCode on any uint32 code against the frozen documented tables; encodeGrpcMessage on every byte string up to the bound, decoded back with a reference Percent-Decoder and checked for legal output bytes. (Further protocol clauses are added as the serveGRPC / encError drivers are built.)",
+   note="Trusted: go/ssa semantics, engine semantics, z3, exact model of fmt.Sprintf(\"%%%02x\"). Outside: what real clients decode (transports are not encoded), JSON rendering of the status body; Twirp / gRPC-web / WebSocket close-frame clauses are not yet claimed in this revision.",
+   design="§4 C05"),
 }
 
 NOT_APPLICABLE = {
